@@ -58,6 +58,8 @@ Definition mb_tell (inner cfg : Z) (h : mb_header) (payload : bytes) : result (l
 
 (* ---- receiver: collectors keyed by (source text, origin time, counter) ---- *)
 Record collector := mkCol { c_count : N; c_bits : list bool; c_buf : bytes }.
+(* (source text, origin time, 4 * counter + ask/reply bits): a reply echoes the
+   asker's origin time and counter, so the bits are part of the key *)
 Definition col_key := (bytes * N * N)%type.
 Definition mb_state := list (col_key * collector).
 
@@ -101,7 +103,7 @@ Definition mb_recv (mtu : Z) (st : mb_state) (src : bytes) (pkt : bytes)
       if (mtu <? Z.of_N (h_total h))%Z then Err E_MTU
       else if h_count h <? 2 then Ok (st, Some (h, body))
       else
-        let k := (src, h_origin h, h_counter h) in
+        let k := (src, h_origin h, 4 * h_counter h + (if h_ask h then 2 else 0) + (if h_reply h then 1 else 0)) in
         let c := match col_get st k with
                  | Some c => c
                  | None => mkCol (h_count h) (repeat false (N.to_nat (h_count h))) (repeat 0 (N.to_nat (h_total h)))
